@@ -28,7 +28,8 @@ PID = "C25"
 LEVEL = "exploration"
 RULE = (
     "exhaustive histories ending in a fetch over {get(n), select([n, m]), put(n, v), del(n), swap loader} for 2 names x 2 versions "
-    "(length <= 4 quick / <= 5 thorough, plus length 6 on bounded caches) and 3 names x 2 versions (length <= 3 quick / <= 4 thorough) "
+    "(length <= 4 quick / <= 5 thorough, plus length 6 on bounded caches) and 3 names x 2 versions (length <= 3, plus length 4 on DictLoader with "
+    "cache size 2, quick / <= 4 thorough) "
     "x cache sizes {0, 1, 2, -1} x auto_reload {on, off} x {DictLoader, FunctionLoader returning str, FunctionLoader with an "
     "up-to-date callback, FileSystemLoader with mtimes forced from a counter}; plus Hypothesis RuleBasedStateMachine histories of "
     "up to 100 steps over 3 names x 3 versions.  Non-trivial = the history fetches a key again after its source was changed or "
@@ -48,7 +49,11 @@ KINDS = ["dict", "func", "func_utd", "fs"]
 CACHES = [0, 1, 2, -1]
 HAS_UTD = {"dict": True, "func": False, "func_utd": True, "fs": True}
 BASE_MTIME = 1_500_000_000
-_counter = [0]
+_keep_dirs = [False]  # set by run_shard: the (empty) per-process directories survive between cases of one shard
+
+
+def remove_workdir():
+    shutil.rmtree(os.path.join(core.VERIF, ".work", "c25-%d" % os.getpid()), ignore_errors=True)
 
 
 def source_text(li, name, version):
@@ -135,11 +140,16 @@ class Run:
         self.compilations = 0
         try:
             if kind == "fs":
-                _counter[0] += 1
                 self.base = os.path.join(core.VERIF, ".work", "c25-%d" % os.getpid())
-                self.dir = os.path.join(self.base, "r%d" % _counter[0])
-                os.makedirs(os.path.join(self.dir, "L0"))
-                os.makedirs(os.path.join(self.dir, "L1"))
+                self.dir = self.base
+                self.materialized = [False, False]
+                for sub in ("L0", "L1"):
+                    d = os.path.join(self.dir, sub)
+                    if os.path.isdir(d):
+                        for f in os.listdir(d):
+                            os.remove(os.path.join(d, f))
+                    else:
+                        os.makedirs(d)
                 self.loaders = [FileSystemLoader(os.path.join(self.dir, "L0")), FileSystemLoader(os.path.join(self.dir, "L1"))]
             elif kind == "dict":
                 self.maps = [{}, {}]
@@ -150,6 +160,8 @@ class Run:
                 self._put(0, n, 0)
             for n in self.names:
                 self._put(1, n, 1)
+            if kind == "fs":
+                self._materialize(0)
             self.env = CountingEnvironment(loader=self.loaders[0], cache_size=cap, auto_reload=self.auto)
         except BaseException:
             self.close()
@@ -183,19 +195,30 @@ class Run:
         src = "".join(list(source_text(li, name, version)))  # a new string object every time
         if self.kind == "dict":
             self.maps[li][name] = src
-        elif self.kind == "fs":
-            path = os.path.join(self.dir, "L%d" % li, name)
-            with open(path, "w", encoding="utf-8") as f:
-                f.write(src)
-            t = (BASE_MTIME + self.stamp) * 10**9
-            os.utime(path, ns=(t, t))
+        elif self.kind == "fs" and self.materialized[li]:
+            self._write(li, name, src, self.stamp)
+
+    def _write(self, li, name, src, stamp):
+        path = os.path.join(self.dir, "L%d" % li, name)
+        with open(path, "w", encoding="utf-8") as f:
+            f.write(src)
+        t = (BASE_MTIME + stamp) * 10**9
+        os.utime(path, ns=(t, t))
+
+    def _materialize(self, li):
+        """The files of a loader directory are written when the loader is first used (same content and
+        mtimes as if written at the time of the put)."""
+        if not self.materialized[li]:
+            self.materialized[li] = True
+            for name, (version, stamp) in self.store[li].items():
+                self._write(li, name, source_text(li, name, version), stamp)
 
     def _del(self, li, name):
         if self.store[li].pop(name, None) is None:
             return
         if self.kind == "dict":
             del self.maps[li][name]
-        elif self.kind == "fs":
+        elif self.kind == "fs" and self.materialized[li]:
             os.remove(os.path.join(self.dir, "L%d" % li, name))
 
     def close(self):
@@ -203,11 +226,13 @@ class Run:
             return
         self.closed = True
         if self.dir is not None:
-            shutil.rmtree(self.dir, ignore_errors=True)
-            try:
-                os.rmdir(self.base)
-            except OSError:
-                pass
+            for sub in ("L0", "L1"):
+                d = os.path.join(self.dir, sub)
+                if os.path.isdir(d):
+                    for f in os.listdir(d):
+                        os.remove(os.path.join(d, f))
+            if not _keep_dirs[0]:
+                remove_workdir()
 
     # -- observation -------------------------------------------------------------------------------
     def _cached_keys(self):
@@ -239,6 +264,8 @@ class Run:
             self._del(self.cur, op[1])
         elif name == "swap":
             self.cur = 1 - self.cur
+            if self.kind == "fs":
+                self._materialize(self.cur)
             self.env.loader = self.loaders[self.cur]
             self.labels.add("swap")
         elif name in ("get", "select"):
@@ -478,7 +505,7 @@ def shards(tier):
 
 def all_enumerated(tier):
     if tier == "quick":
-        return itertools.chain(histories(2, 2, range(1, 5)), histories(3, 2, range(1, 4)))
+        return itertools.chain(histories(2, 2, range(1, 5)), histories(3, 2, range(1, 4)), histories(3, 2, [4], kinds=["dict"], caches=[2]))
     return itertools.chain(
         histories(2, 2, range(1, 6)),
         histories(3, 2, range(1, 5)),
@@ -489,12 +516,14 @@ def all_enumerated(tier):
 
 def run_shard(spec, ctx):
     rec = core.Rec()
+    _keep_dirs[0] = True
     try:
         core.enum_shard(core.sliced(all_enumerated(ctx.tier), ctx.index, ctx.nshards), check_case, ctx, rec=rec)
         if not rec.violations:
             _run_machine(ctx, rec, ctx.pick(10, 120), 100, "machine")
     finally:
-        shutil.rmtree(os.path.join(core.VERIF, ".work", "c25-%d" % os.getpid()), ignore_errors=True)
+        _keep_dirs[0] = False
+        remove_workdir()
     return rec
 
 
